@@ -135,7 +135,8 @@ pub fn gen_case(t: &mut Tape) -> Case {
     let assoc = !dynamic && t.chance(1, 4);
     let (assoc_decl, assoc_impl) = if assoc {
         (
-            "    /// the tag type\n    type Tag: ::core::fmt::Debug + Default;\n    fn tag(&self, x: i32) -> Self::Tag;\n",
+            // (the attributes are the declaration's: an alias for the docs is not allowed on a type in an impl)
+            "    /// the tag type\n    #[doc(alias = \"Label\")]\n    type Tag: ::core::fmt::Debug + Default;\n    fn tag(&self, x: i32) -> Self::Tag;\n",
             "    type Tag = (i32, u8);\n    fn tag(&self, x: i32) -> (i32, u8) { rt::trace(format!(\"TAG|{}|{}\", rt::addr(self), x)); (x, 7) }\n",
         )
     } else {
@@ -233,6 +234,11 @@ pub fn gen_case(t: &mut Tape) -> Case {
     if sup_for_some {
         sups.push("Sup2");
     }
+    // ... next to one that mentions `Self` (and that every type has): each supertrait is its own matter
+    let sup_mentions_self = sup_for_some && t.flip();
+    if sup_mentions_self {
+        sups.push("SupG<Self>");
+    }
     if dynamic && any_async {
         sups.push("Sync");
     }
@@ -255,7 +261,7 @@ pub fn gen_case(t: &mut Tape) -> Case {
     } else {
         src.push_str("pub trait Sup {}\nimpl<T> Sup for ::entrait::Impl<T> {}\n");
     }
-    src.push_str("pub trait Sup2 {}\n");
+    src.push_str("pub trait Sup2 {}\npub trait SupG<X: ?Sized> {}\nimpl<A: ?Sized, B: ?Sized> SupG<B> for A {}\n");
     // users of `delegate_by = Borrow` / `ref` typically import the std trait by name to write their impl
     if dynamic && t.flip() {
         src.push_str(if selector == 3 { "use ::std::borrow::Borrow;\n" } else { "use ::std::convert::AsRef;\nuse ::std::ops::Deref;\n" });
@@ -598,6 +604,9 @@ pub fn gen_case(t: &mut Tape) -> Case {
     }
     if sup_for_some {
         classes.push("supertrait_that_only_some_impl_t_have");
+    }
+    if sup_mentions_self {
+        classes.push("supertrait_that_mentions_self_next_to_others");
     }
     if byval_mut {
         classes.push("defaulted_method_with_mut_self_by_value_under_deny_unused_mut");
